@@ -59,6 +59,7 @@ pub fn boundary_packets_v3(tier: &str) -> Vec<v3::Packet> {
             v.push(publish_v3(1, target - 4 - 1, true));
         }
     }
+    v.extend(sweep_packets_v3());
     v
 }
 /// length-prefixed fields of exactly 65,534 and 65,535 bytes, one field kind per packet
@@ -115,6 +116,7 @@ pub fn boundary_packets_v5(tier: &str) -> Vec<v5::Packet> {
         }
     }
     v.extend(prop_boundary_packets_v5());
+    v.extend(sweep_packets_v5());
     v
 }
 
@@ -175,6 +177,122 @@ pub fn prop_boundary_packets_v5() -> Vec<v5::Packet> {
             let mut au = v5::Auth::new(v5::AuthReasonCode::Success);
             au.properties.user_properties = up(0);
             v.push(v5::Packet::Auth(au));
+        }
+    }
+    v
+}
+
+/// EVERY length 0..=300 of the fields a stack buffer or a small-size fast path would be sized for, and every list
+/// length 0..=40: a boundary that is nobody's power of two (a 40-byte scratch buffer, 124 = 128 - 4) is still hit
+pub fn sweep_packets_v3() -> Vec<v3::Packet> {
+    use std::sync::Arc;
+    let mut v = Vec::new();
+    for n in 0..=300usize {
+        for pv in [mqtt_proto::Protocol::V310, mqtt_proto::Protocol::V311] {
+            let mut c = v3::Connect::new(Arc::new("i".repeat(n)), 60);
+            c.protocol = pv;
+            if n % 3 == 0 {
+                c.username = Some(Arc::new("u".repeat(n / 3)));
+            }
+            v.push(v3::Packet::Connect(c));
+        }
+        if n >= 1 {
+            v.push(publish_v3(n, 2, true));
+        }
+    }
+    let f = |i: usize| mqtt_proto::TopicFilter::try_from(format!("f/{i}")).unwrap();
+    for n in 0..=40usize {
+        if n >= 1 {
+            v.push(v3::Packet::Subscribe(v3::Subscribe { pid: pid1(), topics: (0..n).map(|i| (f(i), mqtt_proto::QoS::Level1)).collect() }));
+            v.push(v3::Packet::Unsubscribe(v3::Unsubscribe { pid: pid1(), topics: (0..n).map(f).collect() }));
+        }
+        v.push(v3::Packet::Suback(v3::Suback { pid: pid1(), topics: (0..n).map(|i| if i % 5 == 4 { v3::SubscribeReturnCode::Failure } else { v3::SubscribeReturnCode::MaxLevel1 }).collect() }));
+    }
+    // list lengths on and around the powers of two a batching loop would use
+    for n in COUNT_BOUNDARIES {
+        v.push(v3::Packet::Subscribe(v3::Subscribe { pid: pid1(), topics: (0..n).map(|i| (f(i), mqtt_proto::QoS::Level1)).collect() }));
+        v.push(v3::Packet::Unsubscribe(v3::Unsubscribe { pid: pid1(), topics: (0..n).map(f).collect() }));
+        v.push(v3::Packet::Suback(v3::Suback { pid: pid1(), topics: (0..n).map(|i| if i % 7 == 6 { v3::SubscribeReturnCode::Failure } else { v3::SubscribeReturnCode::MaxLevel2 }).collect() }));
+    }
+    v
+}
+pub const COUNT_BOUNDARIES: [usize; 12] = [63, 64, 65, 127, 128, 129, 255, 256, 257, 511, 512, 513];
+pub fn sweep_packets_v5() -> Vec<v5::Packet> {
+    use std::sync::Arc;
+    let mut v = Vec::new();
+    let up = |a: usize, b: usize| v5::UserProperty { name: Arc::new("n".repeat(a)), value: Arc::new("v".repeat(b)) };
+    for n in 0..=300usize {
+        v.push(v5::Packet::Connect(v5::Connect::new(Arc::new("i".repeat(n)), 60)));
+        if n >= 1 {
+            let mut p = v5::Publish::new(QosPid::Level1(pid1()), TopicName::try_from("t".repeat(n)).unwrap(), Bytes::from_static(b"pl"));
+            p.properties.content_type = if n % 2 == 0 { Some(Arc::new("c".repeat(n / 2))) } else { None };
+            v.push(v5::Packet::Publish(p));
+        }
+        // a user property whose two halves ADD UP to n
+        let mut splits = vec![(n / 2, n - n / 2)];
+        if n % 4 == 0 {
+            splits.push((0, n));
+            splits.push((n, 0));
+            splits.push((1, n.saturating_sub(1)));
+        }
+        for (a, b) in splits {
+            let mut p = v5::Publish::new(QosPid::Level0, TopicName::try_from("t".to_string()).unwrap(), Bytes::from_static(b"p"));
+            p.properties.user_properties = vec![up(a, b)];
+            v.push(v5::Packet::Publish(p));
+            if n % 4 == 0 {
+                let mut u = v5::Unsubscribe::new(pid1(), vec![mqtt_proto::TopicFilter::try_from("a/b".to_string()).unwrap()]);
+                u.properties.user_properties = vec![up(a, b), up(1, 1)];
+                v.push(v5::Packet::Unsubscribe(u));
+            }
+        }
+        let mut a = v5::Puback::new(pid1(), v5::PubackReasonCode::Success);
+        a.properties.reason_string = Some(Arc::new("r".repeat(n)));
+        v.push(v5::Packet::Puback(a));
+    }
+    let f = |i: usize| mqtt_proto::TopicFilter::try_from(format!("f/{i}")).unwrap();
+    for n in 0..=40usize {
+        if n >= 1 {
+            v.push(v5::Packet::Subscribe(v5::Subscribe::new(pid1(), (0..n).map(|i| (f(i), v5::SubscriptionOptions::new(mqtt_proto::QoS::Level1))).collect())));
+            v.push(v5::Packet::Unsubscribe(v5::Unsubscribe::new(pid1(), (0..n).map(f).collect())));
+        }
+        v.push(v5::Packet::Suback(v5::Suback::new(pid1(), (0..n).map(|i| if i % 5 == 4 { v5::SubscribeReasonCode::NotAuthorized } else { v5::SubscribeReasonCode::GrantedQoS2 }).collect())));
+        v.push(v5::Packet::Unsuback(v5::Unsuback::new(pid1(), (0..n).map(|i| if i % 3 == 2 { v5::UnsubscribeReasonCode::NoSubscriptionExisted } else { v5::UnsubscribeReasonCode::Success }).collect())));
+    }
+    for n in COUNT_BOUNDARIES {
+        v.push(v5::Packet::Subscribe(v5::Subscribe::new(pid1(), (0..n).map(|i| (f(i), v5::SubscriptionOptions::new(mqtt_proto::QoS::Level1))).collect())));
+        v.push(v5::Packet::Unsubscribe(v5::Unsubscribe::new(pid1(), (0..n).map(f).collect())));
+        v.push(v5::Packet::Suback(v5::Suback::new(pid1(), (0..n).map(|i| if i % 7 == 6 { v5::SubscribeReasonCode::NotAuthorized } else { v5::SubscribeReasonCode::GrantedQoS0 }).collect())));
+        v.push(v5::Packet::Unsuback(v5::Unsuback::new(pid1(), (0..n).map(|_| v5::UnsubscribeReasonCode::Success).collect())));
+    }
+    // numbers of user properties around 128 / 256 (a cap, a u8 counter), in the packet types that size what follows
+    // the property section from the decoded set
+    for n in [127usize, 128, 129, 130, 255, 256, 257, 300] {
+        let ups: Vec<v5::UserProperty> = (0..n).map(|i| up(1 + i % 2, i % 3)).collect();
+        let mut p = v5::Publish::new(QosPid::Level1(pid1()), TopicName::try_from("t".to_string()).unwrap(), Bytes::from_static(b"payload"));
+        p.properties.user_properties = ups.clone();
+        v.push(v5::Packet::Publish(p));
+        let mut sa = v5::Suback::new(pid1(), vec![v5::SubscribeReasonCode::GrantedQoS1, v5::SubscribeReasonCode::GrantedQoS2]);
+        sa.properties.user_properties = ups.clone();
+        v.push(v5::Packet::Suback(sa));
+        let mut ua = v5::Unsuback::new(pid1(), vec![v5::UnsubscribeReasonCode::Success]);
+        ua.properties.user_properties = ups.clone();
+        v.push(v5::Packet::Unsuback(ua));
+        let mut sb = v5::Subscribe::new(pid1(), vec![(f(1), v5::SubscriptionOptions::new(mqtt_proto::QoS::Level1))]);
+        sb.properties.user_properties = ups.clone();
+        v.push(v5::Packet::Subscribe(sb));
+        let mut us = v5::Unsubscribe::new(pid1(), vec![f(2)]);
+        us.properties.user_properties = ups;
+        v.push(v5::Packet::Unsubscribe(us));
+    }
+    // name + value of a user property adding up to the sizes a scratch buffer would have, +/- 8
+    for base in [512usize, 1024, 2048, 4096] {
+        for s in base - 8..=base + 8 {
+            let mut p = v5::Publish::new(QosPid::Level0, TopicName::try_from("t".to_string()).unwrap(), Bytes::from_static(b"p"));
+            p.properties.user_properties = vec![up(4, s - 4)];
+            v.push(v5::Packet::Publish(p));
+            let mut a = v5::Puback::new(pid1(), v5::PubackReasonCode::Success);
+            a.properties.user_properties = vec![up(s / 2, s - s / 2)];
+            v.push(v5::Packet::Puback(a));
         }
     }
     v
@@ -336,11 +454,12 @@ pub fn big_shape_event<F: Fam>(out: &mut Out, p: &F::Packet, topic_len: usize, p
 
 /// the sizes: both sides of the 3/4-byte length boundary, of 2^24, and the largest packet there is
 pub fn big_shapes(out: &mut Out, tier: &str, profile: &str) {
-    let mut rls: Vec<usize> = vec![2097151, 2097152, 16777215, 16777216];
+    // both sides of every power of two from 2^21 to 2^24 [2^27], and the largest packet there is
+    let mut rls: Vec<usize> = vec![2097151, 2097152, 4194303, 4194304, 6291456, 8388607, 8388608, 16777215, 16777216];
     if profile == "release" {
         rls.push(268435455);
         if tier == "thorough" {
-            rls.extend([33554432, 134217727, 134217728, 268435454]);
+            rls.extend([33554431, 33554432, 67108863, 67108864, 134217727, 134217728, 268435454]);
         }
     }
     for rl in rls {
@@ -552,6 +671,7 @@ fn enc_event<F: Fam>(out: &mut Out, rng: &mut Rng, p: &F::Packet) {
 
 pub fn record_enc(out: &mut Out, tier: &str, seed: u64) {
     attempt_oversized();
+    big_shapes(out, tier, if cfg!(debug_assertions) { "debug" } else { "release" });
     let n = if tier == "thorough" { 20000 } else { 900 };
     let mut rng = Rng::new(seed ^ 0xC09);
     let mut b = budget(tier);
